@@ -1223,12 +1223,13 @@ func (d *indexData) newMatchTree(q query.Q, opt matchTreeOpt) (matchTree, error)
 			}
 			reposBranchesWant[repoIdx] = mask
 		}
-		return &docMatchTree{
-			reason:  "BranchesRepos",
-			numDocs: d.numDocs(),
-			predicate: func(docID uint32) bool {
-				return d.fileBranchMasks[docID]&reposBranchesWant[d.repos[docID]] != 0
-			},
+		// BranchesRepos is a branch filter: use branchQueryMatchTree so that
+		// gatherBranches reports the requested branches, like it does for
+		// query.Branch.
+		return &branchQueryMatchTree{
+			masks:     reposBranchesWant,
+			fileMasks: d.fileBranchMasks,
+			repos:     d.repos,
 		}, nil
 
 	case *query.RepoSet:
